@@ -420,11 +420,13 @@ pub fn c04(o: &mut O, tier: &str, rng: &mut Rng) {
         let t = times[(ti * 7 + 1) % times.len()];
         let mut offs = offsets.clone();
         if every > 0 {
-            // every whole-second offset in [-20 min, +20 min] (thorough), every 7th (search)
-            let mut s = -1200i128;
+            // every whole-second offset in [-20 min, +20 min] for three server times and every 17th
+            // (from a start that rotates) for the others (thorough); every 7th (search)
+            let step = if tier == "thorough" && ti >= 3 { 17 } else { every };
+            let mut s = -1200i128 + if step > 1 { (ti as i128) % step } else { 0 };
             while s <= 1200 {
                 offs.push(s * 1_000_000_000);
-                s += every;
+                s += step;
             }
         } else {
             for _ in 0..12 {
@@ -512,7 +514,104 @@ fn satisfied(always: &[String], ifreq: &[String], prefixes: &[String], header_na
     true
 }
 
+/// Requirement declarations whose names are related by prefix (a narrow one and a broad one it starts
+/// with, in either declaration order, in either letter case, declared twice), on both containers:
+/// each declared name / prefix keeps its force.  The request carries one header per declared
+/// name; it is signed correctly, with exactly one needed name left out of the signed list (or none).
+fn c05_related_declarations(o: &mut O, tier: &str, rng: &mut Rng) {
+    let sp = Spelling::canonical();
+    let hdrs = ["x-amz-meta-a", "x-amz-meta-", "x-amz-target", "x-amz", "x-a", "x-other", "my-header1", "content-type"];
+    // (kind: 0 always, 1 if-in-request, 2 prefix; declarations in order)
+    let decls: Vec<(u8, Vec<&str>)> = vec![
+        (2, vec!["x-amz-meta-", "x-amz-"]),
+        (2, vec!["x-amz-", "x-amz-meta-"]),
+        (2, vec!["X-Amz-Meta-", "X-Amz-"]),
+        (2, vec!["x-amz-meta-a", "x-amz-meta-", "x-amz", "x-"]),
+        (2, vec!["x-", "x-amz", "x-amz-meta-", "x-amz-meta-a"]),
+        (2, vec!["x-amz-target", "x-amz-targe"]),
+        (2, vec!["x-amz-", "X-AMZ-", "x-amz-"]),
+        (2, vec!["my-", "x-o", "my-header1"]),
+        (2, vec!["x-amz-meta-", "my-", "x-amz-"]),
+        (0, vec!["x-amz-meta-a", "x-amz-meta-"]),
+        (0, vec!["x-amz-meta-", "x-amz-meta-a"]),
+        (0, vec!["X-Amz-Target", "x-amz", "X-A"]),
+        (0, vec!["x-a", "x-amz", "x-amz-target"]),
+        (0, vec!["content-type", "Content-Type", "CONTENT-TYPE", "x-other"]),
+        (1, vec!["x-amz-meta-a", "x-amz-meta-"]),
+        (1, vec!["x-amz-meta-", "x-amz-meta-a"]),
+        (1, vec!["X-Amz", "X-Amz-Target", "x-a"]),
+        (1, vec!["x-other", "X-Other", "x-othe", "x-others"]),
+    ];
+    for (di, (kind, names)) in decls.iter().enumerate() {
+        for vec_reqs in [true, false] {
+            for qc in [false, true] {
+                if tier == "quick" && qc && (di + vec_reqs as usize) % 3 != 0 {
+                    continue;
+                }
+                let declared: Vec<String> = names.iter().map(|s| s.to_string()).collect();
+                let (always, ifreq, prefixes): (Vec<String>, Vec<String>, Vec<String>) = match kind {
+                    0 => (declared.clone(), vec![], vec![]),
+                    1 => (vec![], declared.clone(), vec![]),
+                    _ => (vec![], vec![], declared.clone()),
+                };
+                let mut plan = base_plan();
+                plan.query_carrier = qc;
+                for (k, h) in hdrs.iter().enumerate() {
+                    plan.headers.push((h.to_string(), format!("v{}", k).into_bytes()));
+                }
+                let mut header_names: Vec<String> = plan.headers.iter().map(|h| h.0.clone()).collect();
+                if !qc {
+                    header_names.push("x-amz-date".to_string());
+                    header_names.push("authorization".to_string());
+                }
+                header_names.sort();
+                header_names.dedup();
+                let mut needed: Vec<String> = vec!["host".to_string()];
+                for a in &always {
+                    needed.push(a.to_ascii_lowercase());
+                }
+                for c in &ifreq {
+                    if header_names.contains(&c.to_ascii_lowercase()) {
+                        needed.push(c.to_ascii_lowercase());
+                    }
+                }
+                for p in &prefixes {
+                    for h in &header_names {
+                        if h.starts_with(&p.to_ascii_lowercase()) {
+                            needed.push(h.clone());
+                        }
+                    }
+                }
+                needed.sort();
+                needed.dedup();
+                // nothing left out, then each needed name left out in turn
+                let mut outs: Vec<Option<String>> = vec![None];
+                for nm in needed.iter() {
+                    if nm != "host" && nm != "x-amz-date" {
+                        outs.push(Some(nm.clone()));
+                    }
+                }
+                for out in outs {
+                    let mut p2 = plan.clone();
+                    p2.signed = needed.iter().filter(|s| Some(*s) != out.as_ref()).cloned().collect();
+                    let b = build(&p2, &sp, rng, 0);
+                    let sent: Vec<String> = b.signed.signed_headers.split(';').map(|s| s.to_string()).collect();
+                    let mut cfg = b.cfg.clone();
+                    cfg.always = always.clone();
+                    cfg.ifreq = ifreq.clone();
+                    cfg.prefixes = prefixes.clone();
+                    cfg.vec_reqs = vec_reqs;
+                    let ok = satisfied(&always, &ifreq, &prefixes, &header_names, &sent);
+                    let x = if ok { x_accept() } else { x_kind(K_MISMATCH, 0) };
+                    emit(o, 5, &b.wire, &cfg, &b.prov, &x, &format!("c05,related_declarations,{},{},{}", if ok { "satisfied" } else { "violated" }, if vec_reqs { "vec" } else { "slice" }, carrier_tag(&plan)));
+                }
+            }
+        }
+    }
+}
+
 pub fn c05(o: &mut O, tier: &str, rng: &mut Rng) {
+    c05_related_declarations(o, tier, rng);
     let n = match tier {
         "quick" => 110,
         "thorough" => 1500,
